@@ -53,11 +53,18 @@ MC_MENU = [gen.leaf('Wait', [0], [[0, 'ALL']], ['fixed', 4]), gen.leaf('Wait', [
 
 def model_check(tier):
     """TLC role 1: invariants and action properties of the specification itself."""
-    objs = 4 if tier == 'quick' else 5
-    menu = MC_MENU[:3] if tier == 'quick' else MC_MENU
-    _, res, _ = gen.run_gen('mc', menu, reps=[('fixed', 1), ('fixed', 2)], acts=('NewCircuit', 'AddOp', 'AddSub', 'Apply', 'CopyCirc'),
-                            max_circs=2, max_objs=objs, max_steps=50, base='MCCircuit', invariants=('WF', 'SnapOK'),
-                            properties=('UnrollProps', 'NTimesT', 'Independence', 'CopyFaithful'), workers=16, view='MCView', timeout=1500)
+    def mc(menu, objs, timeout):
+        _, r, _ = gen.run_gen('mc', menu, reps=[('fixed', 1), ('fixed', 2)], acts=('NewCircuit', 'AddOp', 'AddSub', 'Apply', 'CopyCirc'),
+                              max_circs=2, max_objs=objs, max_steps=50, base='MCCircuit', invariants=('WF', 'SnapOK'),
+                              properties=('UnrollProps', 'NTimesT', 'Independence', 'CopyFaithful'), workers=16, view='MCView', timeout=timeout)
+        return r
+    if tier == 'quick':
+        return mc(MC_MENU[:3], 4, 1500)
+    # thorough: one more object over three templates (2.8M states, about 6.5 min on 16 cores), and the full menu at the quick bound
+    res = mc(MC_MENU[:3], 5, 3000)
+    r2 = mc(MC_MENU, 4, 1500)
+    res.distinct += r2.distinct
+    res.generated += r2.generated
     return res
 
 
